@@ -31,6 +31,9 @@ Decided structurally:
   C08.scan      every sscanf that writes a local holding no value yet (no initialiser, no earlier assignment) has its result tested so
                 that a failed conversion cannot reach a use of that local: the failing side of the test reports / leaves / assigns, or
                 all reads the scan can reach (CFG, up to the next write) lie inside the success branch
+  C08.basicraw  BASIC: the editor commands that free the stored program (NEW, DEL, LOAD / RUN "file") raise a BASIC error when a stored line
+                executes them, before anything is released; no statement dereferences an address computed from a program value (POKE, PEEK)
+  C08.replacegrow  an in-place Phreeqc::replace into a raw char buffer that can lengthen the text is preceded by a growth of that buffer
 NOT decided: memory safety / absence of undefined behaviour for all byte sequences in general (no sound buffer or alias
 analysis of the 125 k-line engine is available here); std-library exceptions raised by input-dependent code are only
 censused (C08.stdthrow, informational).
@@ -239,6 +242,8 @@ def run(P, R, tier):
     ladder_rule(P, R, mt)
     gotoloop_rule(P, R, mt)
     scan_rule(P, R)
+    basicraw_rule(P, R)
+    replacegrow_rule(P, R)
     stdthrow_census(P, R, reach)
 
 
@@ -347,6 +352,88 @@ def reachable_reads(f, call, targets):
                 out += reads_in(n)
             st.append(sx)
     return out
+
+
+def replacegrow_rule(P, R):
+    """Phreeqc::replace(const char *, const char *, char *str) substitutes in place with an unbounded memmove.  Wherever the replacement can
+    be longer than the pattern (anything but two literals with len(new) <= len(old)) and the target is a raw char buffer, the function
+    must have grown that buffer first (PHRQ_realloc of the same member) - otherwise a line that nearly fills the buffer is written past
+    its end (get_option: `-a` -> `-analytical_expression`)."""
+    RULE = "C08.replacegrow"
+    R.rule(RULE, "in-place replace() into a raw char buffer that can lengthen the text is preceded by a growth of that buffer", minimum=2)
+    n = 0
+    for key, f in sorted(P.functions.items()):
+        if not f.get("body"):
+            continue
+        for c in T.calls(f["body"]):
+            if (T.callee_q(c) or "") != "Phreeqc::replace" or len(c[4]) != 3 or c[2].get("id", "") != "Phreeqc::replace(const char *,const char *,char *)":
+                continue
+            a, b, t = [T.strip_casts(z) for z in c[4]]
+            if a[0] == "Lit" and b[0] == "Lit" and len(str(b[3])) <= len(str(a[3])):
+                continue
+            n += 1
+            tgt = T.text(t).replace(" ", "")
+            inst = "%s@%d(%s)" % (f["q"].split("::")[-1], c[1], tgt)
+            grown = any(x[0] == "Bin" and x[2] == "=" and T.text(x[3]).replace(" ", "") == tgt and x[1] < c[1] and any(T.callee_name(k) in ("PHRQ_realloc", "realloc") for k in T.calls(x[4]))
+                        for x in T.walk(f["body"]))
+            if grown:
+                R.ok(RULE, inst, "the buffer is grown (PHRQ_realloc) before the replacement")
+            elif t[0] == "Ref" and t[2] == "local" and "[" in str(t[4]):
+                R.ok(RULE, inst, "local array; bounded-copy rules cover its filling (C08.bounded)")
+            else:
+                R.violation(RULE, inst, "`%s` can lengthen the text in `%s` in place, but the function never grows that buffer: a line that nearly fills it is written past its end "
+                            "(heap corruption, the call still returns normally)" % (T.text(c)[:70], tgt), file=f["file"], line=c[1], function=f["q"])
+    if n < 2:
+        R.anchor_missing(RULE, "only %d lengthening in-place replacements into raw buffers found (get_option x2)" % n)
+
+
+def basicraw_rule(P, R):
+    """"no crash, invalid memory access": the BASIC interpreter descends from an interactive one.  (a) Its editor commands NEW, DEL and
+    LOAD (also reached by RUN "file") free the stored program lines; the engine keeps a pointer to those lines (rate::linebase), so inside
+    a stored program they must be rejected: each of cmdnew / cmddel / cmdload tests `stmtline` (non-NULL while a stored line executes) and
+    raises a BASIC error before anything is freed.  (b) POKE / PEEK convert a program value into an address: no statement of PBasic
+    dereferences the pointer member of an integer/pointer union."""
+    RULE = "C08.basicraw"
+    R.rule(RULE, "PBasic: program-freeing editor commands are rejected inside a stored program; no dereference of an address computed from a program value", minimum=4)
+    for q in ("PBasic::cmdnew", "PBasic::cmddel", "PBasic::cmdload"):
+        fs = [g for g in P.fns_named(q) if g.get("body")]
+        if not fs:
+            R.anchor_missing(RULE, "%s not found" % q)
+            continue
+        f = fs[0]
+        guard = None
+        for x in T.walk(f["body"]):
+            if x[0] == "If" and any(y[0] == "Member" and y[2] == "PBasic::stmtline" for y in T.walk(x[2])) and any(T.callee_name(c) == "errormsg" for c in T.calls(x[3])):
+                guard = x
+                break
+        frees = [c[1] for c in T.calls(f["body"]) if T.callee_name(c) in ("PHRQ_free", "disposetokens", "cmdnew", "free_check_null")]
+        inst = q.split("::")[-1]
+        if guard is not None and (not frees or guard[1] < min(frees)):
+            R.ok(RULE, inst, "rejected while a stored line executes (line %d), before the first release (line %s)" % (guard[1], min(frees) if frees else "-"))
+        else:
+            R.violation(RULE, inst, "%s releases program lines without first rejecting the call from inside a stored program (`if (stmtline != NULL) errormsg(..)`): a RATES / USER_PRINT / "
+                        "USER_PUNCH program containing the command frees the lines the engine still points to; the next release of that program (reload, redefinition) crashes"
+                        % inst, file=f["file"], line=f["line"], function=f["q"])
+    n = 0
+    bad = []
+    for key, f in sorted(P.functions.items()):
+        if not f.get("body") or not f["q"].startswith("PBasic::"):
+            continue
+        for x in T.walk(f["body"]):
+            if x[0] == "Un" and x[2] == "*":
+                o = T.strip_casts(x[3])
+                if o[0] == "Member" and T.is_node(o[3]) and T.strip_casts(o[3])[0] == "Ref" and T.strip_casts(o[3])[3] == "trick":
+                    bad.append((f, x))
+        if any(y[0] == "Decl" and any(d[0] == "trick" for d in y[2]) for y in T.walk(f["body"])):
+            n += 1
+    if bad:
+        f, x = bad[0]
+        R.violation(RULE, "address-from-value", "%s dereferences `%s`: an integer computed by the BASIC program is used as an address (POKE / PEEK)" % (f["q"], T.text(x)[:30]),
+                    file=f["file"], line=x[1], function=f["q"])
+    elif n:
+        R.ok(RULE, "address-from-value", "%d functions hold the integer/pointer union, none dereferences it" % n)
+    else:
+        R.ok(RULE, "address-from-value", "no integer/pointer union left in PBasic")
 
 
 def scan_rule(P, R):
